@@ -44,7 +44,7 @@ MANIFEST = {
             "every python/* key or prefix known to PyYAML, with any suffix, reaches construct_undefined; and that "
             "every unregistered '!...' tag does. The transcription is validated against the real construct_object "
             "on keys, prefixes and solver-generated tags. A sat answer is replayed through the real load() with "
-            "canary targets in four document positions.",
+            "canary targets in four document positions. Nineteen documents with a canary tag at one position at a time (document root ... merge-key value) go through the real load(); the dispatch assumption is checked with a spy loader.",
     "note": "trusted: PyYAML funnels every node at every depth through construct_object; SafeConstructor's own "
             "methods build only plain data; z3's string solver",
     "design_ref": "DESIGN.md §3 C18",
